@@ -38,6 +38,9 @@ META = {
 }
 
 LEVELS = ["Q0", "Q2", "Q9"]
+# language features of gen/progen.py used here (macros, domains, exceptions and overloading are rendered in the preamble of a
+# unit and are not split; halt is C03's subject)
+STABLE_FEATURES = ["bi", "str", "while", "for", "exit", "list", "arr", "rec", "un", "clos", "gen", "brk", "rec_fun"]
 
 
 # ------------------------------------------------------------------------------------------------------------------
@@ -102,9 +105,8 @@ def family(chk, n):
     progs = [wide_all_program()]
     base = (chk.seed + 5) % 1000003
     for i in range(n):
-        g = progen.ProgGen(base * 100003 + i)
-        g.feat |= {"fun"}
-        g.feat -= {"halt"}
+        rf = random.Random(base * 31 + i)
+        g = progen.ProgGen(base * 100003 + i, features=["fun"] + [f for f in STABLE_FEATURES if rf.random() < 0.6])
         # functions generated before any file-level variable exists cannot capture one: they can be moved into a library unit
         for _ in range(2):
             g.function()
